@@ -1,6 +1,6 @@
 (* Properties/C19.v — default categories and modifiers (C19) *)
 From Coq Require Import Sorted.
-From HpoV Require Import Gen.Consts Model.Base Model.Group Model.Onto Model.Query Model.Script Proofs.ClosureP Proofs.DistP Proofs.C19P Proofs.C19B Run.World Run.C19 Proofs.GroupP Proofs.C19S.
+From HpoV Require Import Gen.Consts Model.Base Model.Group Model.Onto Model.Query Model.Script Proofs.ClosureP Proofs.DistP Proofs.C19P Proofs.C19B Run.World Run.C19 Proofs.GroupP Proofs.C19S Proofs.C19D.
 
 (* ROOT_ID, ROOT_ID_CAT and PHENOTYPE_ID are regenerated from /repo's source on every run
    (Gen/Consts.v); the statements below are re-checked against the current values. *)
@@ -69,6 +69,20 @@ Theorem C19_accepted_observation_means : forall ts cat mo, defaults_ok ts cat mo
       (forall c, In c (s_cats t) <-> In c cat /\ (c = s_id t \/ In c (s_allp t))).
 Proof. exact defaults_ok_sound. Qed.
 
+(* THE PUBLIC SETTERS REPLACE: set_default_categories then set_default_modifier, called on two ontologies with
+   the same terms — whatever category / modifier groups each carried before (categories_mut / modifier_mut) —
+   end in the same groups (or the same error); and on an ontology that carries the defaults they change nothing *)
+Theorem C19_setters_replace_previous_groups : forall o o', o_arena o = o_arena o' ->
+  match set_defaults o, set_defaults o' with
+  | Ok a, Ok b => o_cat a = o_cat b /\ o_mod a = o_mod b /\ o_arena a = o_arena o /\ o_arena b = o_arena o'
+  | Err e, Err e' => e = e'
+  | _, _ => False
+  end.
+Proof. exact defaults_ignore_previous_groups. Qed.
+
+Theorem C19_setters_idempotent : forall o a, set_defaults o = Ok a -> set_defaults a = Ok a.
+Proof. exact defaults_idempotent. Qed.
+
 Print Assumptions C19_default_modifier.
 Print Assumptions C19_default_categories.
 Print Assumptions C19_is_modifier.
@@ -81,3 +95,5 @@ Print Assumptions C19_builder_categories.
 Print Assumptions C19_is_modifier_exact_caches.
 Print Assumptions C19_categories_exact_caches.
 Print Assumptions C19_accepted_observation_means.
+Print Assumptions C19_setters_replace_previous_groups.
+Print Assumptions C19_setters_idempotent.
